@@ -8,3 +8,4 @@ import AcryoVerif.Props.C04
 import AcryoVerif.Props.C07
 import AcryoVerif.Props.C09
 import AcryoVerif.Props.C17
+import AcryoVerif.Props.C15
